@@ -357,6 +357,13 @@ pub fn c07_inputs(thorough: bool) -> Vec<Spec> {
 			}
 		}
 		out.push(Spec::Native(Native::Slice(k, vec![])));
+		// zero-sized members: distinct empty owned collections are not duplicates of each other
+		out.push(Spec::Native(Native::ZstPair(k)));
+		for i in 0..3 {
+			for j in 0..3 {
+				out.push(Spec::Native(Native::ZstAround(k, i, j)));
+			}
+		}
 	}
 	for a in 0..2 {
 		for b in 0..2 {
